@@ -296,9 +296,12 @@ def resolve_local(fn_node, e, depth=3):
     expression it was given -- `items = [..]; return ','.join(items)` reads like `return ','.join([..])`"""
     import ast as _ast
     while depth > 0 and isinstance(e, _ast.Name):
+        def _targets(st):
+            if isinstance(st, _ast.Assign): return st.targets
+            if isinstance(st, _ast.With): return [i.optional_vars for i in st.items if i.optional_vars is not None]
+            return [st.target]
         binds = [st for st in _ast.walk(fn_node) if isinstance(st, (_ast.Assign, _ast.AugAssign, _ast.AnnAssign, _ast.For, _ast.comprehension, _ast.With, _ast.NamedExpr))
-                 and any(isinstance(x, _ast.Name) and x.id == e.id and isinstance(x.ctx, _ast.Store) for x in _ast.walk(st.target if hasattr(st, 'target') else st)
-                         if not isinstance(x, _ast.stmt) or x is st)]
+                 and any(isinstance(x, _ast.Name) and x.id == e.id and isinstance(x.ctx, _ast.Store) for t_ in _targets(st) for x in _ast.walk(t_))]
         params = {a.arg for a in fn_node.args.args + fn_node.args.kwonlyargs + fn_node.args.posonlyargs} if hasattr(fn_node, 'args') else set()
         if e.id in params or len(binds) != 1 or not isinstance(binds[0], _ast.Assign) or len(binds[0].targets) != 1 or not isinstance(binds[0].targets[0], _ast.Name): return e
         e = binds[0].value; depth -= 1
